@@ -452,6 +452,31 @@ def r8_width_covers(cx):
         cx.ob("R8", "R8/%s.key_size" % ty, ok, g, "value-id width = needed_bytes(%s)" % ("number of values (ids are ranks)" if fld else "data size (ids are byte offsets)"))
 
 
+def r9_dedup_index(cx):
+    """IndexedValueStore::add_value: the index returned for a value already present is its position in the
+    whole data vector (the value id is assigned per position at finalisation)"""
+    F = cx.F
+    f = F.one(impl_self="value_store::IndexedValueStore", item="add_value", closure=False)
+    b = F.body(f)
+    pos = b.calls(r"Iterator>::position::<", r"IndexedParallelIterator>::position_any::<", r"Iterator>::rposition::<", r"position_first::<|position_last::<")
+    ok = len(pos) >= 1
+    bad = []
+    for i, t in pos:
+        # receiver chain: only (par_)iter over self.0.data
+        chain = [callee_str(tt) for _, tt in b.origin_calls(t["args"][0])]
+        adapters = [c for c in chain if not re.search(r"::iter$|par_iter$|IntoParallelRefIterator<.*>>::par_iter$|Deref>::deref$|IntoIterator>::into_iter$", c)]
+        if adapters or ("field", "data") not in b.origins(t["args"][0]):
+            bad.append((t.get("ln"), adapters))
+    # the Some(idx) => idx arm returns a value derived from those position calls only
+    ret = b.origins(0)
+    ret_calls = {x[1] for x in ret if x[0] == "call"}
+    pos_blocks = {i for i, _ in pos}
+    addv = {i for i, t in b.calls(r"BaseValueStore::add_value::<")}
+    unknown = [callee_str(b.term(x)) for x in ret_calls if x not in pos_blocks and x not in addv and not call_is(b.term(x), r"::iter$|par_iter$|Deref>::deref$|::len$|Into<.*>>::into$|From<.*>>::from$|into_iter$")]
+    cx.ob("R9", "R9/IndexedValueStore.add_value", ok and not bad and not unknown, f,
+          "the index of an already stored value is position(..)/position_any(..) taken directly over (par_)iter() of the whole data vector (offending adapters %s; other sources of the returned index %s)" % (bad, [u.split("::")[-1] for u in unknown]))
+
+
 RULES = [
     ("R1", r1_signed_width, 3),
     ("R2", r2_tail_size, 4),
@@ -461,4 +486,5 @@ RULES = [
     ("R6", r6_order, 5),
     ("R7", r7_array_length_recorded, 1),
     ("R8", r8_width_covers, 3),
+    ("R9", r9_dedup_index, 1),
 ]
